@@ -349,10 +349,17 @@ func c09Run(c *mc.Ctx) {
 	{
 		var big []c09Enc
 		var evals int64
-		for _, p := range []uint{8, 12} {
-			for _, d := range []int{-1, 0, 1} {
-				l := 1<<p + d
-				for _, flip := range []int{-1, 0, l / 2, l - 1} {
+		pow := map[int]bool{255: true, 256: true, 257: true, 4095: true, 4096: true, 4097: true}
+		{
+			// plus every round-number threshold in between (3·2^k, 10^k, 2·10^k, 5·10^k, 2^k, each ±1), with
+			// fewer variants each
+			for _, l := range gen.SizesAround(8, 12, []int{-1, 0, 1}) {
+				flips := []int{-1, 0, l / 2, l - 1}
+				tos := []int32{int32(8 * l), int32(8*l - 3), int32(8*l - 8), int32(8*l - 13)}
+				if !pow[l] {
+					flips, tos = []int{-1, l - 1}, tos[:2]
+				}
+				for _, flip := range flips {
 					bb := make([]byte, l)
 					for i := range bb {
 						bb[i] = byte(i*29 + 5)
@@ -361,7 +368,7 @@ func c09Run(c *mc.Ctx) {
 						bb[flip] ^= 0x80
 					}
 					sB := string(bb)
-					for _, to := range []int32{int32(8 * l), int32(8*l - 3), int32(8*l - 8), int32(8*l - 13)} {
+					for _, to := range tos {
 						src := c09Src{gen.Bytes(sB), 0, to}
 						e, pp := bsNew(sB, 0, to)
 						bits := c09Bits(sB, 0, to)
